@@ -13,8 +13,8 @@ def check(tier):
     rep.assumptions += ["a macro body runs in a child of the scope the macro was defined in (as that scope is at call time)",
                         "a loop has one scope for all its iterations"]
     return rep.finish(
-        rule="every nesting to depth 2 (quick) / 3 (thorough) of 17 constructs (with in four binding shapes, for over either name, macro with "
-             "and without a parameter of the colliding name, if, set of either name, include with pairs / with only, autoescape, filter tag, "
+        rule="every nesting to depth 2 (quick) / 3 (thorough) of 19 constructs (with in four binding shapes, for over either name, macro with "
+             "and without a parameter of the colliding name, macros called with parameters left out whose names collide with context keys, globals and tag-set names, if, set of either name, include with pairs / with only, autoescape, filter tag, "
              "ifchanged, else-branch) over the colliding names a, b with a probe of a, b, a global and a context-overridden global before, "
              "inside and after every construct, four innermost variants (probe, set, chained set, call of a top-level macro); the caller's "
              "Context and the set's Globals are deep-compared before/after every execution; invalid context keys and macro clashes.",
